@@ -51,7 +51,7 @@ CLAIMED = {
     ),
     "C09": (
         "model-based testing of the real gateway-side limiter against a scripted limiter server with hostile replies (rapid state machines, ledger and window oracles)",
-        "Generated-input search: the real UpstreamLimiter in remote mode, driven synchronously by verif hooks, with a scripted server (readiness flips, client unavailable, allocate replies with quotas/bursts in {0,1,-1,-5,MinInt32,MaxInt32,around G,below G}, errors; for the count strategy arbitrary accept/limit/error answers with stale and reordered request times delivered to SetLimit). Oracles: in-flight ledger <= G at every admission, exact local fallback (L admitted from empty), granted quota takes effect, token-bucket windows per limiter segment. One listed open finding (local and remote counters are independent) relaxes the bound to G+L only for histories matching its signature. Exploration.",
+        "Generated-input search: the real UpstreamLimiter in remote mode, driven synchronously by verif hooks, with a scripted server (readiness flips, client unavailable, allocate replies with quotas/bursts in {0,1,-1,-5,MinInt32,MaxInt32,around G,below G}, errors; for the count strategy arbitrary accept/limit/error answers with stale and reordered request times delivered to SetLimit - max-in-flight and, driving the token protocol round by round as the counter worker does, token bucket - plus real-time outage scenarios (replies without result / failing calls for 7 s, then recovery) with the real counter worker and watchdog). Oracles: in-flight ledger <= G at every admission, exact local fallback (L admitted from empty), granted quota takes effect (again after a recovery), token-bucket windows per limiter segment. One listed open finding (local and remote counters are independent) relaxes the bound to G+L only for histories matching its signature. Exploration.",
         "Trusted: rapid, fake gateway clientset, stub ClientSets. The 2 s reconcile loop, the counter worker and real heartbeats are replaced by synchronous hook calls; replies keep the schema's type.",
         "DESIGN.md 4/C09",
     ),
